@@ -176,9 +176,19 @@ def run(res, f, tier):
                 im_ = (b_ or {}).get("impl") or {}
                 if b_ and im_.get("trait") and not b_.get("parent"):
                     return "<%s as %s>::%s" % (im_["self_s"], im_["trait"], b_["name"])
+                if b_ and not b_.get("parent"):
+                    # an inherent or free function is named after its signature (stable under renaming / moving)
+                    def shape(t_):
+                        trees = [x.split("::")[-1] for x in TREE.findall(t_)]
+                        return "+".join(dict.fromkeys(trees)) if trees else "_"
+                    ins = [shape(f.ty_s(b_["locals"][i]["ty"])) for i in range(1, b_["arg_count"] + 1)]
+                    return "fn(%s) -> %s" % (", ".join(ins), shape(f.ty_s(b_["locals"][0]["ty"])))
                 return pth
-            entered = sorted(set(canon(x) for x in entered))
-            key = "C19|cycle|%s" % (entered[0] if entered else canon(local[0]))
+            # prefer the operations of the tree types themselves over helper types met on the way
+            ent_names = set(canon(x) for x in entered)
+            names_ = sorted(set(canon(x) for x in local if not f.bodies.get(x, {}).get("parent")),
+                            key=lambda n_: (0 if n_.startswith("<") and TREE.search(n_.split(" as ")[0]) else (1 if n_ in ent_names else 2), n_))
+            key = "C19|cycle|%s" % (names_[0] if names_ else canon(local[0]))
             what = "unbounded recursion over the expression / value tree through %s" % ", ".join(local[:5])
         else:
             key = "C19|cycle|drop:%s" % drops[0]
